@@ -79,6 +79,11 @@ PROPS = {
         "quick": {"stages": [st("^TestC20", 3000)]},
         "thorough": {"stages": [st("^TestC20", 40000, shards=8)]},
     },
+    "C16": {
+        "pkg": "handlers", "level": "exploration",
+        "quick": {"stages": [st("^TestC16", 800), st("^TestC16", 300, pkg="sqlite")]},
+        "thorough": {"stages": [st("^TestC16", 6000, shards=10), st("^TestC16", 2000, shards=6, pkg="sqlite")]},
+    },
     "C10": {
         "pkg": "core", "level": "exploration",
         "quick": {"stages": [st("^TestC10", 15000)]},
